@@ -127,7 +127,7 @@ def parseRelay (s : String) : Option (List PeerName) :=
 
 /-! ## deliver / drain -/
 
-def St.deliver (st : St) (a b : PeerName) (relay : List PeerName) (keep : Bool) (rev : Bool := false) : St × Ans :=
+def St.deliver (st : St) (a b : PeerName) (relay : List PeerName) (keep : Bool) (rev : WalkOrder := .forward) : St × Ans :=
   match (st.c.link a b).wire, st.c.broker? b with
   | w :: _, some _ =>
       let (st1, res) := st.apply (.deliver a b relay keep rev)
@@ -159,27 +159,46 @@ def St.pickAll (st : St) (a b : PeerName) : Nat → St
       | some _ => St.pickAll st1 a b fuel
       | none => st
 
-def St.deliverAll (st : St) (rev : Bool) (a b : PeerName) (n : Nat) : Nat → St × Nat
+/-- FNV-1a (32 bit), as harness/c05 computes it over the answer of a delivery -/
+def fnv (s : String) : UInt32 :=
+  s.toUTF8.foldl (fun h b => (h ^^^ b.toUInt32) * 16777619) 2166136261
+
+def hex32 (x : UInt32) : String :=
+  let ds := (Nat.toDigits 16 x.toNat)
+  String.ofList ds
+
+def orders : List WalkOrder := [.forward, .reverse, .addsFirst, .removesFirst]
+
+/-- the answer under the first walk order that explains the implementation's answer (the forward one if none does) -/
+def firstMatching (run : WalkOrder → St × Ans) (ok : St × Ans → Bool) : St × Ans :=
+  match (orders.map run).find? ok with
+  | some r => r
+  | none => run .forward
+
+/-- deliver everything on link a→b; each delta is walked in the order that explains the
+implementation's answer for that delivery (`tags`: its FNV per delivery, in drain order) -/
+def St.deliverAll (st : St) (tags : List String) (a b : PeerName) (n : Nat) : Nat → St × Nat
   | 0 => (st, n)
   | fuel + 1 =>
       if (st.c.link a b).wire.isEmpty then (st, n) else
       let relay := (st.c.neighbours b).filter (· != a)
-      let (st1, _) := st.deliver a b relay false rev
-      St.deliverAll st1 rev a b (n + 1) fuel
+      let want := tags[n]?
+      let r := firstMatching (fun o => st.deliver a b relay false o) (fun r => want == some (hex32 (fnv r.2.m)))
+      St.deliverAll r.1 tags a b (n + 1) fuel
 
 def St.pending (st : St) : Bool :=
   st.c.links.any (fun e => e.2.up && (e.2.gossip.isSome || !e.2.bcasts.isEmpty || !e.2.wire.isEmpty))
 
-def St.sweep (st : St) (rev : Bool) (n : Nat) : St × Nat :=
+def St.sweep (st : St) (tags : List String) (n : Nat) : St × Nat :=
   let names := st.c.brokers.map (·.self)
   names.foldl (fun acc a => names.foldl (fun acc b =>
     if a == b || !(acc.1.c.link a b).up then acc else
     let st1 := acc.1.pickAll a b 64
-    st1.deliverAll rev a b acc.2 256) acc) (st, n)
+    st1.deliverAll tags a b acc.2 256) acc) (st, n)
 
-def St.drain (st : St) (rev : Bool) (n : Nat) : Nat → St × Nat
+def St.drain (st : St) (tags : List String) (n : Nat) : Nat → St × Nat
   | 0 => (st, n)
-  | fuel + 1 => if !st.pending then (st, n) else let r := st.sweep rev n; St.drain r.1 rev r.2 fuel
+  | fuel + 1 => if !st.pending then (st, n) else let r := st.sweep tags n; St.drain r.1 tags r.2 fuel
 
 def St.allDumps (st : St) : String :=
   " | ".intercalate (st.c.brokers.map dumpModel)
@@ -260,10 +279,7 @@ def step (st : St) (ws : List String) (_impl : String) : St × Ans :=
       | some a, some b, some relay =>
           -- the delta is walked in Go map order: where that order matters (only on flagged, i.e.
           -- already desynchronised, counters) the order that explains the implementation's answer is taken
-          let r := st.deliver a b relay (keep == "1") false
-          if r.2.m == _impl then r else
-          let r' := st.deliver a b relay (keep == "1") true
-          if r'.2.m == _impl then r' else r
+          (firstMatching (fun o => st.deliver a b relay (keep == "1") o) (fun r => r.2.m == _impl))
       | _, _, _ => (st, bad)
   | ["gossip", a, b] =>
       match a.toNat?, b.toNat? with
@@ -303,7 +319,7 @@ def step (st : St) (ws : List String) (_impl : String) : St × Ans :=
           match st.c.broker? b with
           | some br =>
               let m : Map := [(encKey peer conn (ssidOf st.contract chb), ⟨add, del, []⟩)]
-              let run (rev : Bool) : St × Ans :=
+              let run (rev : WalkOrder) : St × Ans :=
                 let r := mergeStep rev br m
                 let st1 := ({ st with c := st.c.setBroker r.broker }).addFlags b r.flags
                 let old := st1.specOf b
@@ -311,19 +327,19 @@ def step (st : St) (ws : List String) (_impl : String) : St × Ans :=
                 let st2 := st1.setSpec b (specJoin old (timesOf m))
                 let md := match r.delta with | some d => mapStr d | none => "nil"
                 (st2, st2.dumpAns b s!"delta={md} " s!"delta={if d.isEmpty then "nil" else entriesStr d} ")
-              let r := run false
-              if r.2.m == _impl then r else
-              let r' := run true
-              if r'.2.m == _impl then r' else r
+              firstMatching run (fun r => r.2.m == _impl)
           | none => (st, bad)
       | _, _, _, _, _, _ => (st, bad)
   | ["drain"] =>
-      let r := st.drain false 0 200
-      let m := s!"n={r.2} {r.1.allDumps}"
-      if m == _impl then (r.1, { m := m }) else
-      let r' := st.drain true 0 200
-      let m' := s!"n={r'.2} {r'.1.allDumps}"
-      if m' == _impl then (r'.1, { m := m' }) else (r.1, { m := m })
+      -- the implementation's answer carries one tag per delivery: "n=.. t=a.b.c <dumps>"
+      let tags := match (_impl.splitOn " t=") with
+        | _ :: rest :: _ => ((rest.splitOn " ").headD "").splitOn "."
+        | _ => []
+      let r := st.drain tags 0 200
+      let ts := match (_impl.splitOn " t=") with
+        | _ :: rest :: _ => (rest.splitOn " ").headD ""
+        | _ => ""
+      (r.1, { m := s!"n={r.2} t={ts} {r.1.allDumps}" })
   | ["quiesce"] => (st, { m := "ok" })
   | ["dump", b] =>
       match b.toNat? with
